@@ -270,8 +270,10 @@ def make_mesh(rng, cls, d, kind):
     from menpo.image import Image
     if kind == "grid":
         shp = (int(rng.integers(2, 6)), int(rng.integers(2, 6)))
+        if rng.random() < 0.12:
+            shp = [(16, 16), (8, 32), (32, 8), (64, 4), (4, 64), (15, 17), (17, 15)][rng.integers(0, 7)]     # a few hundred vertices (index types have their limits at 256)
         base = ms.TriMesh.init_2d_grid(shp, spacing=float(rng.uniform(0.5, 3)) if rng.random() < 0.5 else None)
-        pts, tl = base.points.copy(), base.trilist.astype(np.int64)
+        pts, tl = base.points.copy(), base.trilist.copy()        # the triangle list exactly as the grid constructor hands it out
         if d == 3:
             pts = np.hstack([pts, rng.uniform(-2, 2, (len(pts), 1))])
     elif kind == "sparse_large":
@@ -325,7 +327,7 @@ def make_mesh(rng, cls, d, kind):
         tl = gen.cover_all_vertices(rng, n, tl)
         tl = tl[rng.permutation(len(tl))]
     n = len(pts)
-    if rng.random() < 0.3:
+    if rng.random() < 0.3 and kind != "grid":
         tl = tl.astype(np.uint32)
     r_ = rng.random()
     if r_ < 0.2 and kind != "degenerate":
